@@ -35,7 +35,7 @@ Name == [Ok |-> "Ok", TooManyEntries |-> "Err:TooManyEntries", EntryTooBig |-> "
          DifferentBaseRegister |-> "Err:DifferentBaseRegister", RegisterAddrMismatch |-> "Err:RegisterAddrMismatch"]
 Names(set) == {Name[x] : x \in set}
 
-Events == {"Reset", "AddOp", "Merge", "VerifiedMerge", "VerifiedMergeCrafted", "Verify", "Read", "Law"}
+Events == {"Reset", "AddOp", "Merge", "VerifiedMerge", "VerifiedMergeCrafted", "Verify", "Read", "Law", "Tampered"}
 Clauses == {"C06_MergeCommutes", "C06_MergeAssoc", "C06_MergeIdem", "C06_Converge", "C06_AuthorisedAdd",
             "C06_AuthorisedMerge", "C06_Authorised", "C06_Closure"}
 
@@ -108,7 +108,13 @@ VerEvs(e) == IF e.obs.ver = "skip" THEN {}
              ELSE {[ClosureEv(e.obs.ver, OpSet(e.obs), NextGhost(e).merged[e.r]) EXCEPT !.id = 1]}
 
 Evaluations(e) ==
-    CASE e.ev = "AddOp" ->
+    CASE e.ev = "Tampered" ->
+           \* a copy of an authorised operation whose content (entry / causal parents / address) was rewritten
+           \* while the signature was kept is not signed by a permitted signer: it must not enter, and
+           \* verify() must not accept a register assembled with it
+           { Ev("C06_AuthorisedAdd", e.open \/ (e.res # "Ok" /\ e.ver # "Ok"), ~e.open,
+                [NoFacts EXCEPT !.res = e.res, !.reasons = <<"tampered:" \o e.kind>>]) }
+      [] e.ev = "AddOp" ->
            LET b == g.B[e.r]  before == g.cur[e.r].os.ops  after == S(e.obs.ops) IN
            { Ev("C06_AuthorisedAdd", R!C06_AuthorisedAdd(g.P, b, e.o, e.res, before, after),
                 ~R!Valid(g.P, b, e.o) \/ after # before,
@@ -172,7 +178,7 @@ ExpectedRes(e) ==
              R!VMergeRes(g.P, g.B[e.r], [g.B[e.r] EXCEPT !.sigOk = e.sig], S(e.cs), e.cnf + Cardinality(S(e.cs)), g.limit)
       [] e.ev = "Verify" -> R!VerifyRes(g.P, g.B[e.r], g.cur[e.r].os.ops, Count(g.cur[e.r].os), g.limit)
 Drifts(e) ==
-    IF e.ev \in {"Reset", "Law"} \/ ~WellFormed(e) THEN {}
+    IF e.ev \in {"Reset", "Law", "Tampered"} \/ ~WellFormed(e) THEN {}
     ELSE (IF e.ev # "Read" /\ e.res \notin Names(ExpectedRes(e)) THEN {"result"} ELSE {})
     \* the result the model gave in the TLC scenario (only where the model allows a single result: which of
     \* several offending operations verify() meets first is left open by the model)
